@@ -43,6 +43,9 @@ def prov(fn, local, depth=12, _seen=None):
         elif d[0] == "call":
             c = d[2]
             toks.add("c:" + c.name())
+            toks.add("call:" + strip_generics(c.path))
+            for ga in c.gargs:
+                toks.add("targ:" + last_seg(ga))
             if "via" in c.callee:
                 toks.add("c:" + last_seg(c.callee["via"]))
             for a in c.args:
@@ -72,6 +75,8 @@ def _prov_op(fn, op, toks, depth, seen):
             toks.add("const:" + last_seg(op[4]))
         if op[1] == "fn":
             toks.add("fnref:" + last_seg(op[2].get("path", "")))
+        if op[1] == "static":
+            toks.add("static:" + last_seg(op[2]))
         if op[1] == "promoted":
             pb = fn.const_of_promoted(op[2])
             if pb:
@@ -110,7 +115,13 @@ def marker_matches(toks, marker):
         return True
     if isinstance(marker, str):
         marker = [marker]
-    return all(m in toks for m in marker)
+    for m in marker:
+        if m.startswith("~"):
+            if not any(m[1:] in x for x in toks):
+                return False
+        elif m not in toks:
+            return False
+    return True
 
 
 # ----------------------------------------------------------------------------------------
@@ -363,6 +374,32 @@ def blocks_constructing(fn, adt_suffix, variant):
     return sorted(set(out))
 
 
+def error_return_blocks(fn, adt_suffix, variant):
+    """Blocks that build `Err(<adt>::<variant>..)` (possibly boxed/converted): the value must flow
+    into an `Err` aggregate, not into an eagerly evaluated argument such as `ok_or(E)`."""
+    out = set()
+    for i, j, st in fn.stmts():
+        if st[0] == "a" and st[2][0] == "agg" and st[2][1] == "adt" and \
+                st[2][2] == "core::result::Result" and st[2][4] == "Err" and st[2][3]:
+            l = op_local(st[2][3][0])
+            depth = 0
+            while l is not None and depth < 6:
+                depth += 1
+                l = fn.resolve_copy(l)
+                d = fn.single_def(l)
+                if not d:
+                    break
+                if d[0] == "stmt" and d[3][0] == "agg" and d[3][1] == "adt":
+                    if d[3][2].endswith(adt_suffix) and (variant is None or d[3][4] == variant):
+                        out.add(i)
+                    break
+                if d[0] == "call" and d[2].name() in ("new", "into", "from") and d[2].args:
+                    l = op_local(d[2].args[0])
+                    continue
+                break
+    return out
+
+
 def error_sink_blocks(fn):
     """Blocks that start an error return: `Err{..}` aggregates and `?` residual conversions."""
     out = set()
@@ -412,7 +449,7 @@ def check_guard(fn, matcher, err=None, expect_rel=None, sinks=None, bypass="auto
         return r
     if sinks is None:
         if err is not None:
-            sinks = set(blocks_constructing(fn, err[0], err[1]))
+            sinks = set(error_return_blocks(fn, err[0], err[1])) or set(blocks_constructing(fn, err[0], err[1]))
             if not sinks:
                 r.msg = "rejection %s::%s is not constructed in this function" % err
                 return r
